@@ -25,6 +25,12 @@ lib/Spec.vos lib/Spec.vok lib/Spec.required_vos: lib/Spec.v lib/Lib.vos lib/RLib
 lib/Trig.vo lib/Trig.glob lib/Trig.v.beautified lib/Trig.required_vo: lib/Trig.v lib/Lib.vo lib/RLib.vo
 lib/Trig.vio: lib/Trig.v lib/Lib.vio lib/RLib.vio
 lib/Trig.vos lib/Trig.vok lib/Trig.required_vos: lib/Trig.v lib/Lib.vos lib/RLib.vos
+proofs/C09_boost.vo proofs/C09_boost.glob proofs/C09_boost.v.beautified proofs/C09_boost.required_vo: proofs/C09_boost.v lib/Lib.vo lib/RLib.vo lib/Trig.vo lib/Conv.vo lib/Spec.vo gen/Compute.vo gen/Tables.vo gen/Unfold.vo proofs/Spec_planar.vo proofs/Spec_spatial1.vo proofs/Spec_spatial2.vo proofs/Spec_lorentz.vo
+proofs/C09_boost.vio: proofs/C09_boost.v lib/Lib.vio lib/RLib.vio lib/Trig.vio lib/Conv.vio lib/Spec.vio gen/Compute.vio gen/Tables.vio gen/Unfold.vio proofs/Spec_planar.vio proofs/Spec_spatial1.vio proofs/Spec_spatial2.vio proofs/Spec_lorentz.vio
+proofs/C09_boost.vos proofs/C09_boost.vok proofs/C09_boost.required_vos: proofs/C09_boost.v lib/Lib.vos lib/RLib.vos lib/Trig.vos lib/Conv.vos lib/Spec.vos gen/Compute.vos gen/Tables.vos gen/Unfold.vos proofs/Spec_planar.vos proofs/Spec_spatial1.vos proofs/Spec_spatial2.vos proofs/Spec_lorentz.vos
+proofs/C09_boost2.vo proofs/C09_boost2.glob proofs/C09_boost2.v.beautified proofs/C09_boost2.required_vo: proofs/C09_boost2.v lib/Lib.vo lib/RLib.vo lib/Trig.vo lib/Conv.vo lib/Spec.vo gen/Compute.vo gen/Tables.vo gen/Unfold.vo proofs/Spec_planar.vo proofs/Spec_spatial1.vo proofs/Spec_spatial2.vo proofs/Spec_lorentz.vo proofs/C09_boost.vo
+proofs/C09_boost2.vio: proofs/C09_boost2.v lib/Lib.vio lib/RLib.vio lib/Trig.vio lib/Conv.vio lib/Spec.vio gen/Compute.vio gen/Tables.vio gen/Unfold.vio proofs/Spec_planar.vio proofs/Spec_spatial1.vio proofs/Spec_spatial2.vio proofs/Spec_lorentz.vio proofs/C09_boost.vio
+proofs/C09_boost2.vos proofs/C09_boost2.vok proofs/C09_boost2.required_vos: proofs/C09_boost2.v lib/Lib.vos lib/RLib.vos lib/Trig.vos lib/Conv.vos lib/Spec.vos gen/Compute.vos gen/Tables.vos gen/Unfold.vos proofs/Spec_planar.vos proofs/Spec_spatial1.vos proofs/Spec_spatial2.vos proofs/Spec_lorentz.vos proofs/C09_boost.vos
 proofs/C10_rot.vo proofs/C10_rot.glob proofs/C10_rot.v.beautified proofs/C10_rot.required_vo: proofs/C10_rot.v lib/Lib.vo lib/RLib.vo lib/Trig.vo lib/Conv.vo lib/Spec.vo gen/Compute.vo gen/Tables.vo gen/Unfold.vo proofs/Spec_planar.vo proofs/Spec_spatial1.vo proofs/Spec_spatial2.vo
 proofs/C10_rot.vio: proofs/C10_rot.v lib/Lib.vio lib/RLib.vio lib/Trig.vio lib/Conv.vio lib/Spec.vio gen/Compute.vio gen/Tables.vio gen/Unfold.vio proofs/Spec_planar.vio proofs/Spec_spatial1.vio proofs/Spec_spatial2.vio
 proofs/C10_rot.vos proofs/C10_rot.vok proofs/C10_rot.required_vos: proofs/C10_rot.v lib/Lib.vos lib/RLib.vos lib/Trig.vos lib/Conv.vos lib/Spec.vos gen/Compute.vos gen/Tables.vos gen/Unfold.vos proofs/Spec_planar.vos proofs/Spec_spatial1.vos proofs/Spec_spatial2.vos
@@ -67,6 +73,9 @@ proofs/Spec_spatial2.vos proofs/Spec_spatial2.vok proofs/Spec_spatial2.required_
 props/C01.vo props/C01.glob props/C01.v.beautified props/C01.required_vo: props/C01.v lib/Lib.vo lib/RLib.vo lib/Spec.vo gen/Compute.vo gen/Tables.vo proofs/Spec_planar.vo proofs/Spec_spatial1.vo proofs/Spec_spatial2.vo proofs/Spec_lorentz.vo
 props/C01.vio: props/C01.v lib/Lib.vio lib/RLib.vio lib/Spec.vio gen/Compute.vio gen/Tables.vio proofs/Spec_planar.vio proofs/Spec_spatial1.vio proofs/Spec_spatial2.vio proofs/Spec_lorentz.vio
 props/C01.vos props/C01.vok props/C01.required_vos: props/C01.v lib/Lib.vos lib/RLib.vos lib/Spec.vos gen/Compute.vos gen/Tables.vos proofs/Spec_planar.vos proofs/Spec_spatial1.vos proofs/Spec_spatial2.vos proofs/Spec_lorentz.vos
+props/C09.vo props/C09.glob props/C09.v.beautified props/C09.required_vo: props/C09.v lib/Lib.vo lib/RLib.vo lib/Spec.vo gen/Compute.vo gen/Tables.vo proofs/C09_boost.vo proofs/C09_boost2.vo
+props/C09.vio: props/C09.v lib/Lib.vio lib/RLib.vio lib/Spec.vio gen/Compute.vio gen/Tables.vio proofs/C09_boost.vio proofs/C09_boost2.vio
+props/C09.vos props/C09.vok props/C09.required_vos: props/C09.v lib/Lib.vos lib/RLib.vos lib/Spec.vos gen/Compute.vos gen/Tables.vos proofs/C09_boost.vos proofs/C09_boost2.vos
 props/C10.vo props/C10.glob props/C10.v.beautified props/C10.required_vo: props/C10.v lib/Lib.vo lib/RLib.vo lib/Spec.vo gen/Compute.vo gen/Tables.vo proofs/Spec_planar.vo proofs/Spec_spatial2.vo proofs/C10_rot.vo
 props/C10.vio: props/C10.v lib/Lib.vio lib/RLib.vio lib/Spec.vio gen/Compute.vio gen/Tables.vio proofs/Spec_planar.vio proofs/Spec_spatial2.vio proofs/C10_rot.vio
 props/C10.vos props/C10.vok props/C10.required_vos: props/C10.v lib/Lib.vos lib/RLib.vos lib/Spec.vos gen/Compute.vos gen/Tables.vos proofs/Spec_planar.vos proofs/Spec_spatial2.vos proofs/C10_rot.vos
